@@ -65,8 +65,93 @@ def rule_layer_lock(ctx, rule):
     ctx.hold(rule, where(LAYERS, "YowLayer.toLower", None), "the layer lock is only taken by toLower", "no other layer method takes self.lock (%d found)" % n_lock) if not n_lock else None
 
 
+def rule_reent(ctx, rule="C12.reent"):
+    """a non-reentrant lock is not re-acquired by the thread that holds it through a callback: when a method holds
+    `self.L` and, inside the critical section, calls into an external object that was handed one of the class's own
+    bound methods as a callback, that callback may run synchronously on the same thread; if it reaches (through self
+    calls) a method that acquires `self.L` again, the thread blocks on itself with the lock held for ever - unless L is
+    an RLock or the acquiring method first returns when the current thread is the holder."""
+    repo = ctx.repo
+    n_sections = 0
+    for m in sorted(repo.modules.values(), key=lambda m: m.relpath):
+        if "/demos/" in m.relpath:
+            continue
+        for c in m.classes.values():
+            # callbacks handed to external objects: self.X = Ext(..., cb=self.m, ...) or self.X.register(self.m)
+            cbs = {}      # attribute X -> set of method names
+            rlocks = set()
+            for fn in c.methods.values():
+                for n in ast.walk(fn):
+                    if isinstance(n, ast.Assign) and isinstance(n.value, ast.Call):
+                        for t in n.targets:
+                            if isinstance(t, ast.Attribute) and isinstance(t.value, ast.Name) and t.value.id == "self":
+                                if unparse(n.value.func).endswith("RLock"):
+                                    rlocks.add(t.attr)
+                                for a in list(n.value.args) + [k.value for k in n.value.keywords]:
+                                    for x in ast.walk(a):
+                                        if is_self_attr(x) and repo.find_method(c, x.attr)[1] is not None:
+                                            cbs.setdefault(t.attr, set()).add(x.attr)
+                    if isinstance(n, ast.Call) and isinstance(n.func, ast.Attribute) and isinstance(n.func.value, ast.Attribute) and is_self_attr(n.func.value):
+                        for a in list(n.args) + [k.value for k in n.keywords]:
+                            if is_self_attr(a) and repo.find_method(c, a.attr)[1] is not None:
+                                cbs.setdefault(n.func.value.attr, set()).add(a.attr)
+            for name, fn in sorted(c.methods.items()):
+                g = None
+                acquires = []
+                for n in ast.walk(fn):
+                    if isinstance(n, ast.Call) and isinstance(n.func, ast.Attribute) and n.func.attr == "acquire" and is_self_attr(n.func.value):
+                        acquires.append((n.func.value.attr, n, None))
+                    if isinstance(n, ast.With):
+                        for i in n.items:
+                            if is_self_attr(i.context_expr) and ("lock" in i.context_expr.attr.lower()):
+                                acquires.append((i.context_expr.attr, n, n.body))
+                for L, node, body in acquires:
+                    if L in rlocks:
+                        continue
+                    n_sections += 1
+                    repo.consulted.add(m.relpath)
+                    # statements of the critical section
+                    if body is None:
+                        g = g or CFG(fn)
+                        acq = [x for x in g.live if x.kind == "stmt" and any(y is node for e in node_exprs(x) for y in ast.walk(e))]
+                        rel = [x for x in g.live if x.kind == "stmt" and unparse(x.stmt) == "self.%s.release()" % L]
+                        inside = [x for x in (g.reachable_from(acq[0], avoid=rel) if acq else []) if x is not (acq[0] if acq else None)]
+                        exprs = [e for x in inside for e in node_exprs(x)]
+                    else:
+                        exprs = [st for st in body]
+                    w = where(m.relpath, "%s.%s" % (c.name, name), node.lineno)
+                    bad = []
+                    for e in exprs:
+                        for x in (walk_no_nested(e) if not isinstance(e, ast.stmt) else ast.walk(e)):
+                            if isinstance(x, ast.Call) and isinstance(x.func, ast.Attribute) and isinstance(x.func.value, ast.Attribute) and is_self_attr(x.func.value) \
+                                    and x.func.value.attr in cbs:
+                                for cb in sorted(cbs[x.func.value.attr]):
+                                    for rname, (k, rfn) in reach_self_calls(repo, c, cb).items():
+                                        again = [y for y in ast.walk(rfn) if (isinstance(y, ast.Call) and isinstance(y.func, ast.Attribute) and y.func.attr == "acquire" and is_self_attr(y.func.value, L))
+                                                 or (isinstance(y, ast.With) and any(is_self_attr(i.context_expr, L) for i in y.items))]
+                                        if again and not same_thread_guard(rfn, again[0]):
+                                            bad.append("%s() may call back %s, which reaches %s, which takes self.%s again" % (unparse(x.func), cb, rname, L))
+                    ctx.check(rule, not bad, w, "critical section of self.%s in %s.%s" % (L, c.name, name),
+                              "the lock is not re-entrant and is re-acquired on the same thread through a callback: %s - the thread blocks on itself and the lock is never released" % "; ".join(sorted(set(bad))[:2]),
+                              "no callback path re-acquires the lock (or the holder is recognised first)")
+    ctx.units["C12.critical_sections"] = n_sections
+
+
+def same_thread_guard(fn, acquire_node):
+    """an `if <mentions the current thread> : return` placed before the acquisition"""
+    for st in fn.body:
+        if getattr(st, "lineno", 0) >= getattr(acquire_node, "lineno", 0):
+            break
+        if isinstance(st, ast.If) and any(isinstance(x, ast.Return) for x in st.body) and \
+                any(isinstance(x, ast.Attribute) and x.attr in ("current_thread", "get_ident", "currentThread") or isinstance(x, ast.Name) and x.id in ("current_thread", "get_ident") for x in ast.walk(st.test)):
+            return True
+    return False
+
+
 def run(ctx):
     repo = ctx.repo
+    ctx.rule("C12.reent", "no non-reentrant lock is re-acquired by its holder through a callback handed to an external object", floor=3)
+    ctx.guarded("C12.reent", rule_reent, ctx)
     ctx.rule("C12.order", "no downward path delivers upward; no layer-lock holder takes the flush lock; nothing is called under the ping lock", floor=20)
     ctx.rule("C12.block", "blocking get() only on queues that are reset per attempt", floor=1)
     v, se = default_layers(repo, dict.fromkeys(FLAGS, True))
